@@ -11,15 +11,17 @@ run_one() {
   rsync -a --exclude .git /repo/ "$T/"
   if ! (cd "$T" && patch -p1 -s -f < "$patch" >/dev/null 2>&1); then echo "$name APPLY-FAILED"; rm -rf "$T"; return; fi
   res=""
+  out=$(timeout 900 bin/hlsverif matrix -repo "$T" 2>&1)
   for p in $PROPS; do
-    out=$(timeout 300 bin/hlsverif check -prop $p -repo "$T" -noevidence -keysonly 2>&1)
-    k=$(echo "$out" | grep '^FAILKEY' | sed 's/^FAILKEY //' | grep -v "BYTERANGE" | sed "s/^/  $name $p FAIL /")
-    u=$(echo "$out" | grep '^UNDECIDED' | cut -c1-200 | sed "s/^/  $name $p /")
+    k=$(echo "$out" | grep "^$p FAILKEY" | sed "s/^$p FAILKEY //" | grep -v "BYTERANGE" | sed "s/^/  $name $p FAIL /")
+    u=$(echo "$out" | grep "^$p UNDECIDED" | sed "s/^$p //" | cut -c1-200 | sed "s/^/  $name $p /")
     [ -n "$k" ] && res="$res
 $k"
     [ -n "$u" ] && res="$res
 $u"
   done
+  echo "$out" | grep -q '^LOADERROR' && res="$res
+  $name LOADERROR"
   if [ -z "$res" ]; then echo "$name : silent"; else echo "$name :$res"; fi
   rm -rf "$T"
 }
